@@ -696,8 +696,8 @@ func (e *OpEngine) numericCompare(got, want sym.Expr, dims []sym.Poly) (int, str
 		seen[v] = true
 	}
 	for _, c := range append(got.Constants(), want.Constants()...) {
-		for _, v := range []float64{c, -c, c * (1 + 1e-3), c * (1 - 1e-3), 1 - c} {
-			if !seen[v] && !math.IsNaN(v) && !math.IsInf(v, 0) && len(edges) < 64 {
+		for _, v := range []float64{c, -c, c * (1 + 1e-3), c * (1 - 1e-3), 1 - c, c + 1, c - 1, 2 * c} {
+			if !seen[v] && !math.IsNaN(v) && !math.IsInf(v, 0) && len(edges) < 96 {
 				seen[v] = true
 				edges = append(edges, v)
 			}
@@ -779,6 +779,12 @@ func (e *OpEngine) numericCompare(got, want sym.Expr, dims []sym.Poly) (int, str
 			finA := !math.IsNaN(a) && !math.IsInf(a, 0)
 			finB := !math.IsNaN(b) && !math.IsInf(b, 0)
 			if edge && !finB {
+				// the definition overflows here.  For a plain monotone formula (one term, e.g. exp(x), x^3) that IS
+				// the defined float64 result, and finite code output is a difference (a saturated exponential);
+				// for compound formulas an overflow of the real-number form proves nothing
+				if math.IsInf(b, 0) && finA && err1 == nil && sym.SingleTermNoInverse(want) && e.realCondsHold(env) {
+					return 1, fmt.Sprintf("at %s index %v%s: code formula gives %.6g, the definition overflows to %v", sym.ModelString(mdl), pos, symsString(env), a, b)
+				}
 				err2 = fmt.Errorf("definition non-finite at an edge point")
 			}
 			if err1 == nil && err2 == nil && e.realCondsHold(env) {
